@@ -443,3 +443,67 @@ def option_consulted(ctx: Ctx) -> None:
         else:
             ctx.ok(R, f, f.node, f'every producing path consults `{opt}`', key=key)
     ctx.require(n >= 1, 'option-consulted table')
+
+
+def stale_derived_flag(ctx: Ctx, modules: tp.Sequence[str] = ('type_blocks', 'frame', 'series', 'util', 'container_util')) -> None:
+    R = 'I.derived-flag-fresh'
+    ctx.rule(R, 'a local that records a fact about an array (`A.any()`, `A.all()`, `A.sum()`, `len(A)`, `A.size`) still describes that array where it is tested: between the '
+             'capture and the test the array is not changed in place (`A &= ...`, `A |= ...`, `A[...] = ...`) nor narrowed by rebinding (`A = A & ...`); a flag captured before the mask is '
+             'narrowed decides with the old contents (a block is re-typed although nothing is written into it)', floor=10)
+    prog = ctx.prog
+    n = 0
+    for f in prog.all_funcs():
+        if isinstance(f.node, ast.Lambda) or f.module.short not in modules:
+            continue
+        stmts = [s for s in walk_local(f.node) if isinstance(s, ast.stmt)]
+        for a in stmts:
+            if not (isinstance(a, ast.Assign) and len(a.targets) == 1 and isinstance(a.targets[0], ast.Name)):
+                continue
+            v = a.value
+            arr = None
+            if isinstance(v, ast.Call) and isinstance(v.func, ast.Attribute) and v.func.attr in ('any', 'all', 'sum') and isinstance(v.func.value, ast.Name) and not v.args:
+                arr = v.func.value.id
+            elif isinstance(v, ast.Call) and call_name(v) == 'len' and v.args and isinstance(v.args[0], ast.Name):
+                arr = v.args[0].id
+            elif isinstance(v, ast.Attribute) and v.attr in ('size',) and isinstance(v.value, ast.Name):
+                arr = v.value.id
+            if arr is None or arr in ('self',):
+                continue
+            flag = a.targets[0].id
+            # tests that read the flag after the capture
+            uses = [t for t in walk_local(f.node) if isinstance(t, (ast.If, ast.While, ast.IfExp)) and t.lineno > a.lineno
+                    and any(isinstance(x, ast.Name) and x.id == flag for x in ast.walk(t.test))]
+            if not uses:
+                continue
+            n += 1
+            key = f'{f.qualname.split(".", 1)[1]}:{flag}<-{arr}'
+            bad = None
+            for t in uses:
+                # recomputed in between?
+                if any(isinstance(s, ast.Assign) and any(isinstance(x, ast.Name) and x.id == flag for x in s.targets) and a.lineno < s.lineno < t.lineno for s in stmts):
+                    continue
+                for s in stmts:
+                    if not (a.lineno < s.lineno <= t.lineno) or s is t:
+                        continue
+                    # statements inside the test's own body come after the test
+                    inner = (t.body + t.orelse) if isinstance(t, (ast.If, ast.While)) else [t.body, t.orelse]
+                    if any(y is s for b in inner for y in ast.walk(b)):
+                        continue
+                    mut = (isinstance(s, ast.AugAssign) and isinstance(s.target, ast.Name) and s.target.id == arr) or \
+                        (isinstance(s, ast.AugAssign) and isinstance(s.target, ast.Subscript) and isinstance(s.target.value, ast.Name) and s.target.value.id == arr) or \
+                        (isinstance(s, ast.Assign) and any(isinstance(x, ast.Subscript) and isinstance(x.value, ast.Name) and x.value.id == arr for x in s.targets)) or \
+                        (isinstance(s, ast.Assign) and any(isinstance(x, ast.Name) and x.id == arr for x in s.targets) and
+                         ((isinstance(s.value, ast.BinOp) and isinstance(s.value.op, (ast.BitAnd, ast.BitOr, ast.BitXor))) or
+                          (isinstance(s.value, ast.UnaryOp) and isinstance(s.value.op, ast.Invert))) and
+                         any(isinstance(y, ast.Name) and y.id == arr for y in ast.walk(s.value)))       # A = A & other: the same mask, narrowed
+                    if mut:
+                        bad = (s, t)
+                        break
+                if bad:
+                    break
+            if bad:
+                ctx.bad(R, f, bad[1], f'`{flag}` was captured from `{norm(a.value)}` at line {a.lineno - f.node.lineno + 1} of the function, then `{norm(bad[0])[:50]}` changed `{arr}`, '
+                        f'and `{norm(bad[1].test)[:50]}` still decides with the old fact', key=key)
+            else:
+                ctx.ok(R, f, a, f'`{arr}` is not changed between the capture of `{flag}` and its tests', key=key)
+    ctx.require(n >= 10, 'captured array facts that are tested later')
